@@ -287,3 +287,31 @@ M("c18-tag-renumber", "C18", "R18.5", SIG, "TYPE_COINBASE_DATA = b'\\x01'\nTYPE_
 M("c18-skip-instate-on-genesis-parent", "C18", "R18.1", CONS, "    validate_block_summary_in_coinstate(block.header.summary, coinstate)\n\n    reconstructed_evidence",
   "    if block.height > 170000 and block.nonce == 0:\n        return\n\n    validate_block_summary_in_coinstate(block.header.summary, coinstate)\n\n    reconstructed_evidence")
 M("c18-scrypt-salt-len", "C18", ["R18.4", "R05.7", "R18"], CONS, "current_height.to_bytes(8, byteorder='big')", "current_height.to_bytes(4, byteorder='big')")
+
+# ----------------------------------------------------------------------------------------------- C09
+M("c09-reintroduce-d3", "C09", "R09.4", RP,
+  "            coinstate_changed = coinstate_prior.add_block_no_validation(block)\n            self.local_peer.disk_interface.save_block(block)\n",
+  "            self.local_peer.disk_interface.save_block(block)\n            coinstate_changed = coinstate_prior.add_block_no_validation(block)\n")
+M("c09-drop-clear", "C09", ["R09.4", "R09.3"], RP, "                    DefaultBlockStore.instance.write_buffer.clear()  # don't save bad blocks\n", "")
+M("c09-drop-orphan-return", "C09", ["R09.2", "R09.3", "R09.4"], RP,
+  "                                               human(block_hash)))\n                return\n", "                                               human(block_hash)))\n")
+M("c09-flush-before-validation", "C09", ["R09.3", "R09.4"], RP,
+  "                try:\n                    validate_block_in_coinstate(block, coinstate_prior)  # very slow\n",
+  "                self.local_peer.disk_interface.flush_blocks()\n                try:\n                    validate_block_in_coinstate(block, coinstate_prior)  # very slow\n")
+M("c09-broadcast-unconditional", "C09", ["R09.6", "R09.3"], RP, "            if block == coinstate_changed.head() and header.in_response_to == 0:", "            if True:")
+M("c09-drop-dedupe", "C09", ["R09.1", "R09.3", "R09.4"], RP, "        if block_hash not in coinstate_prior.block_by_hash:\n\n            if block.header", "        if True:\n\n            if block.header")
+M("c09-clear-other-store", "C09", ["R09.5", "R09.4", "R09.3"], RP, "                    DefaultBlockStore.instance.write_buffer.clear()  # don't save bad blocks",
+  "                    BlockStore(':memory:').write_buffer.clear()  # don't save bad blocks")
+M("c09-validate-against-changed", "C09", "R09.3", RP, "                    validate_block_in_coinstate(block, coinstate_prior)  # very slow", "                    validate_block_in_coinstate(block, coinstate_changed)  # very slow")
+M("c09-set-before-validate", "C09", "R09.3", RP,
+  "                try:\n                    validate_block_in_coinstate(block, coinstate_prior)  # very slow\n",
+  "                self.local_peer.chain_manager.set_coinstate(coinstate_changed, validated=True)\n                try:\n                    validate_block_in_coinstate(block, coinstate_prior)  # very slow\n")
+M("c09-swallow-byitself", "C09", ["R09.2", "R09.3", "R09.4"], RP,
+  "                        self.host, coinstate_prior.head().height, human(block_hash), str(e)))\n                return\n",
+  "                        self.host, coinstate_prior.head().height, human(block_hash), str(e)))\n")
+M("c09-unvalidated-nonbulk", "C09", "R09.3", RP, "            if header.in_response_to == 0 or block.height % IBD_VALIDATION_SKIP == 0:", "            if block.height % IBD_VALIDATION_SKIP == 0:")
+M("c09-handler-narrow", "C09", ["R09.4", "R09.3"], RP, "                except Exception:\n                    self.local_peer.logger.info(\"%15s INVALID block", "                except ValueError:\n                    self.local_peer.logger.info(\"%15s INVALID block")
+M("c09-no-flush", "C09", "R09.4", RP, "                self.local_peer.disk_interface.flush_blocks()\n            else:", "            else:")
+M("c09-relay-any-valid", "C09", "R09.6", RP, "            if block == coinstate_changed.head() and header.in_response_to == 0:", "            if header.in_response_to == 0:")
+M("c09-rollback-then-no-return", "C09", ["R09.3", "R09.4"], RP, "                    DefaultBlockStore.instance.write_buffer.clear()  # don't save bad blocks\n                    return\n",
+  "                    DefaultBlockStore.instance.write_buffer.clear()  # don't save bad blocks\n")
